@@ -196,3 +196,47 @@ func VerifC20Analytic() {
 		}
 	}
 }
+
+// VerifC05WhereChain: WHERE with a parenthesis-free chain mixing AND and OR (lowered text, as the SQL
+// parser hands it over): the row is emitted iff the predicate is true under SQL precedence (AND binds
+// tighter than OR). On the unchanged tree such a chain is declined by the predicate fast paths and
+// evaluated by expr-lang (path cut: outside the encoding); if a fast path ever accepts it, its answer
+// is held to the precedence-correct value here.
+func VerifC05WhereChain() {
+	form := zzverif.Param("form", 0)
+	texts := []string{"a > 1 || b > 2 && c > 3", "a > 1 && b > 2 || c > 3", "a > 1 || b > 2 || c > 3", "a > 1 && b > 2 && c > 3", "a > 1 || b > 2 && c > 3 || a < 0"}
+	s := verifDirectStream([]string{"a", "b", "c"}, texts[form])
+	row := map[string]any{}
+	num := func(name string) (int, bool) {
+		if zzverif.Choose(name+".kind", 3) == 2 {
+			return 0, false // absent
+		}
+		v := int(int8(zzverif.NondetU64(name+".i", 8)))
+		row[name] = v
+		return v, true
+	}
+	a, aok := num("a")
+	b, bok := num("b")
+	c, cok := num("c")
+	res, err := s.processDirectDataSync(row)
+	zzverif.Assert(err == nil, "direct-no-error")
+	if !aok || !bok || !cok {
+		return // comparisons with a missing column: NULL handling is checked by the fast-path harnesses (C12)
+	}
+	A, B, C := a > 1, b > 2, c > 3
+	var want bool
+	switch form {
+	case 0:
+		want = A || (B && C)
+	case 1:
+		want = (A && B) || C
+	case 2:
+		want = A || B || C
+	case 3:
+		want = A && B && C
+	default:
+		want = A || (B && C) || a < 0
+	}
+	zzverif.ObserveB("emitted", res != nil)
+	zzverif.Assert((res != nil) == want, "row-emitted-iff-predicate-true")
+}
